@@ -227,6 +227,16 @@ func c17PickChain(c *Ctx, n int) []uint64 {
 
 func c17PickN(c *Ctx) int { return []int{16, 32, 64}[c.rng.Intn(3)] }
 
+// c17Safe: a Go panic inside the real code must not abort the run: it becomes a failing probe
+func c17Safe(c *Ctx, name string, f func(*Ctx)) {
+	defer func() {
+		if r := recover(); r != nil {
+			c.Probe("no-panic", "in="+name, "C17/"+name+"/panic", strings.ReplaceAll(fmt.Sprint(r), "\n", " "))
+		}
+	}()
+	f(c)
+}
+
 func genC17(c *Ctx) {
 	if err := c17LoadZig(); err != nil {
 		panic(err)
@@ -243,5 +253,6 @@ func genC17(c *Ctx) {
 	c17GaussSessions(c)
 	c17MixedSessions(c)
 	c17QP(c)
+	c17Safe(c, "prng", c17PRNG)
 	c17Probes(c)
 }
